@@ -151,7 +151,7 @@ def run(prop, tier, only=None):
         nd = len({e["di"] for e in events})
         ne = len({e["ei"] for e in events})
         nf = len({e["fi"] for e in events if e["event"] == "xe"})
-        out.rule = ("every (document, expression, fragment) triple of spec/CliPool.tla in this tier (%d documents incl. "
+        out.rule = ("every (document, expression, fragment) triple of spec/CliPool.tla that RunsOn admits (%d documents incl. "
                     "merged text runs, DOCTYPE, prefixes and default namespaces, %d expressions incl. nested / empty / "
                     "scalar / erroneous selections and long flat chains, %d replacement fragments incl. ill-formed, "
                     "prefixed and unsupported ones) run through the real xq and xe binaries, compact and indented; a run "
